@@ -8,6 +8,7 @@ pub mod h_ordered;
 pub mod h_unord;
 pub mod wire;
 pub mod h_derive;
+pub mod h_wire;
 #[allow(non_camel_case_types, dead_code, unused_imports, clippy::all)]
 pub mod gen_shapes;
 
